@@ -765,35 +765,61 @@ def f64_class(bits):
     return "0x%x" % bits
 
 
+ORDERS = ("decode-first", "encode-first", "interleaved")
+
+
 def codec_part(ctx, asan, cov):
     nrand = ctx.n(2000, 50000)
-    r1 = sh([asan.probe("isa_probe"), "--codec", str(ctx.seed), str(nrand)], cpu=600, san=True, wall=3600)
+    # every order is a fresh process: decode-first proves (encodes_before_decode_pass=0) that truncations, exact decodes and
+    # undefined bytes were judged before isa_encode ran at all - hidden state shared by the two functions must not matter
+    runs = pmap(lambda o: (o, sh([asan.probe("isa_probe"), "--codec", str(ctx.seed), str(nrand), o], cpu=900, san=True, wall=3600)), ORDERS)
     r2 = sh([asan.probe("isa_probe"), "--text"], cpu=600, san=True, wall=3600)
-    for mode, r in (("codec", r1), ("text", r2)):
+    for mode, r in [("codec/" + o, r) for o, r in runs] + [("text", r2)]:
         rep = r.sanitizer_report()
         if rep:
             last = [l for l in r.text().splitlines() if l.startswith("FAIL")][-1:]
             ctx.violation("%s|sanitizer|%s" % (mode, san_signature(rep)),
-                          "sanitizer report inside isa_probe --%s (exact-size heap blocks: an over-read/over-write of the codec)\n%s\nlast FAIL line: %s"
-                          % (mode, rep, last), {"report.txt": rep, "cmd.txt": "isa_probe --%s %d %d   # asan flavor\n" % (mode, ctx.seed, nrand)})
-    s1 = re.search(r"SUMMARY mode=codec cells=(\d+) defined=(\d+) undefined=(\d+) tuples=(\d+) truncs=(\d+) random=(\d+) undef_cells=(\d+) fails=(\d+)", r1.text())
+                          "sanitizer report inside isa_probe (%s) (exact-size heap blocks: an over-read/over-write of the codec)\n%s\nlast FAIL line: %s"
+                          % (mode, rep, last), {"report.txt": rep, "codec.txt": "isa_probe --%s %d %d %s   # asan flavor\n" % (
+                              "text" if mode == "text" else "codec", ctx.seed, nrand, mode.split("/")[-1] if "/" in mode else "")})
+    sums = {}
+    per_order = {}
+    tot = dict(cells=0, truncs=0, random=0, undef_cells=0, fails=0)
+    for o, r in runs:
+        m = re.search(r"SUMMARY mode=codec order=(\S+) cells=(\d+) defined=(\d+) undefined=(\d+) tuples=(\d+) truncs=(\d+) random=(\d+) "
+                      r"undef_cells=(\d+) encodes_before_decode_pass=(\d+) cold_decode_opcodes=(\d+) fails=(\d+)", r.text())
+        if not m:
+            if ctx.violations:
+                continue
+            ctx.require(False, "isa_probe --codec %s printed no SUMMARY (rc=%s sig=%s): %s" % (o, r.rc, r.sig, r.errtext()[-600:]))
+        g = [int(x) for x in m.groups()[1:]]
+        sums[o] = g
+        per_order[o] = {"cells": g[0], "truncations": g[4], "random_operand_strings": g[5], "encodes_before_decode_pass": g[7],
+                        "opcodes_decoded_before_their_first_encode": g[8], "failing_cells": g[9]}
+        for k, i in (("cells", 0), ("truncs", 4), ("random", 5), ("undef_cells", 6), ("fails", 9)):
+            tot[k] += g[i]
+        ctx.require(g[1] + g[2] == 256 and g[1] >= 1, "opcode table does not cover 256 bytes")
+        if o == "decode-first":
+            ctx.require(g[7] == 0 and g[8] == g[1], "decode-first pass was not cold (%d encodes before it, %d of %d opcodes)" % (g[7], g[8], g[1]))
+        if o == "interleaved":
+            ctx.require(g[8] >= 8, "interleaved order decoded only %d opcodes before their first encode" % g[8])
+        nfail = 0
+        for line in r.text().splitlines():
+            mm = re.match(r"FAIL (\S+) (op=0x[0-9a-f]{2})(.*)", line)
+            if mm:
+                nfail += 1
+                ctx.violation("codec|%s|%s" % (mm.group(1), mm.group(2)), "isa_probe --codec (order %s): %s" % (o, line),
+                              {"codec.txt": line + "\nreplay: isa_probe --codec %d %d %s   # asan flavor\n" % (ctx.seed, nrand, o)})
+        ctx.require(nfail == min(g[9], 400), "FAIL lines (%d) do not match the probe's own count (%d)" % (nfail, g[9]))
     s2 = re.search(r"SUMMARY mode=text cells=(\d+) defined=(\d+) undefined=(\d+) text_cells=(\d+) skipped=(\d+) fails=(\d+)", r2.text())
-    if not (s1 and s2):
+    if not s2 or len(sums) != len(ORDERS):
         if ctx.violations:
             return None
-        ctx.require(False, "isa_probe printed no SUMMARY (codec rc=%s sig=%s, text rc=%s sig=%s): %s"
-                    % (r1.rc, r1.sig, r2.rc, r2.sig, (r1.errtext() + r2.errtext())[-600:]))
-    g1 = [int(x) for x in s1.groups()]
+        ctx.require(False, "isa_probe --text printed no SUMMARY (rc=%s sig=%s): %s" % (r2.rc, r2.sig, r2.errtext()[-600:]))
     g2 = [int(x) for x in s2.groups()]
-    ctx.require(g1[1] + g1[2] == 256 and g1[1] >= 1, "opcode table does not cover 256 bytes")
-    nfail = 0
-    for line in r1.text().splitlines():
-        m = re.match(r"FAIL (\S+) (op=0x[0-9a-f]{2})(.*)", line)
-        if m:
-            nfail += 1
-            ctx.violation("codec|%s|%s" % (m.group(1), m.group(2)), "isa_probe --codec: " + line,
-                          {"codec.txt": line + "\nreplay: isa_probe --codec %d %d   # asan flavor\n" % (ctx.seed, nrand)})
-    ctx.require(nfail == min(g1[7], 400), "FAIL lines (%d) do not match the probe's own count (%d)" % (nfail, g1[7]))
+    e = sums["encode-first"]
+    g1 = [tot["cells"], e[1], e[2], e[3], tot["truncs"], tot["random"], tot["undef_cells"], tot["fails"]]
+    cov["codec_orders"] = per_order
     text_known = {}
     for line in r2.text().splitlines():
         m = re.match(r"FAIL (\S+) op=0x([0-9a-f]{2}) (\S+)((?: [A-Z0-9]+:0x[0-9a-f]+)*): (.*)", line)
